@@ -38,6 +38,8 @@ def call_name(call):
 
 def call_tail(call):
     """Last component of the callee: 'insert' for self.routes.insert(...)."""
+    if not isinstance(call, ast.Call):
+        return None
     f = call.func
     if isinstance(f, ast.Attribute):
         return f.attr
